@@ -43,6 +43,25 @@ Theorem C20_statement_loop_iterations_linear :
 Proof. intros tree ntok is_eof is_semi ps H strict pos acc.
        apply (parse_fuel tree ntok is_eof is_semi (fun _ => false) ps H). apply Nat.lt_succ_diag_r. Qed.
 
+(* recovery parsing touches every token at most three times, wherever the errors are and whatever the statement parser
+   answers (it resumes where the failed statement stopped, never inside it) ... *)
+Theorem C20_recovery_work_linear :
+  forall tree ntok is_eof is_semi starts_stmt ps,
+    (forall p t p', ps p = SOk t p' -> p < p') ->
+    (forall p c p', ps p = SErr c p' -> p <= p') ->
+    (forall p, match ps p with SOk _ p' => p' <= ntok | SErr _ p' => p' <= ntok end) ->
+    forall fuel pos, pos <= ntok ->
+      rwork tree ntok is_eof is_semi starts_stmt ps resume_code fuel pos <= 3 * (ntok - pos).
+Proof. exact recover_work_linear. Qed.
+
+(* ... while going back into the failed statement (resume one token past its start) re-reads the rest of a long
+   malformed statement from every inner statement keyword: 40 keywords, 161 tokens, 3480 token visits *)
+Theorem C20_recovery_restart_quadratic_refuted :
+  run_rwork false (chain_kinds 40) (chain_tbl 40) = 162 /\
+  run_rwork true (chain_kinds 40) (chain_tbl 40) = 3480 /\
+  20 * length (chain_kinds 40) < run_rwork true (chain_kinds 40) (chain_tbl 40).
+Proof. exact restart_work_quadratic_refuted. Qed.
+
 (* metadata extraction: one visit per node, for every tree and every Children() table (the pinned double recursion
    cost 2^k visits on k UNIONs: Props/C15.v C15_collect_visits_exponential_refuted) *)
 Theorem C20_collect_visits_linear : forall em (stmts : list qn), visits em stmts <= list_sum (map qsize stmts).
@@ -61,3 +80,5 @@ Print Assumptions C20_rescan_quadratic_refuted.
 Print Assumptions C20_tokenizer_iterations_linear.
 Print Assumptions C20_statement_loop_iterations_linear.
 Print Assumptions C20_collect_visits_linear.
+Print Assumptions C20_recovery_work_linear.
+Print Assumptions C20_recovery_restart_quadratic_refuted.
